@@ -93,7 +93,7 @@ pub enum Tree2 {
 }
 
 /// app A's event: every variant kind, every primitive, the protocol types of all five capabilities
-#[derive(Serialize, Deserialize, Debug, Clone, PartialEq)]
+#[derive(Serialize, Deserialize, Debug)]
 pub enum Event {
     Nothing,
     Text(String),
@@ -122,7 +122,7 @@ pub enum Event {
     GotPlatform(PlatformResponse),
 }
 
-#[derive(Serialize, Deserialize, Debug, Clone, PartialEq)]
+#[derive(Serialize, Deserialize, Debug)]
 pub struct ViewModel {
     pub seen: u64,
     pub recent: Vec<Event>,
@@ -144,7 +144,8 @@ pub mod app_a {
     #[derive(Default)]
     pub struct Model {
         pub seen: u64,
-        pub recent: Vec<Event>,
+        /// the last events that came from the shell (not the `Got*` ones), serialised: `Event` is not `Clone`
+        pub recent: Vec<Vec<u8>>,
         pub last_text: Option<String>,
         pub tags: BTreeMap<String, u32>,
         pub blob: Vec<u8>,
@@ -192,9 +193,11 @@ pub mod app_a {
                 Event::Floats(f) => model.ratio = f.y,
                 _ => {}
             }
-            model.recent.push(event);
-            if model.recent.len() > 3 {
-                model.recent.remove(0);
+            if !matches!(event, Event::GotHttp(_) | Event::GotKv(_) | Event::GotTime(_) | Event::GotPlatform(_)) {
+                model.recent.push(bincode::serialize(&event).expect("event"));
+                if model.recent.len() > 3 {
+                    model.recent.remove(0);
+                }
             }
             cmd
         }
@@ -202,7 +205,7 @@ pub mod app_a {
         fn view(&self, model: &Model) -> ViewModel {
             ViewModel {
                 seen: model.seen,
-                recent: model.recent.clone(),
+                recent: model.recent.iter().map(|b| bincode::deserialize(b).expect("event")).collect(),
                 last_text: model.last_text.clone(),
                 tags: model.tags.clone(),
                 blob: model.blob.clone(),
@@ -218,7 +221,7 @@ pub mod app_a {
 }
 
 /// app B: the capability API with `#[derive(Effect, Export)]`, as most user apps are written
-#[derive(Serialize, Deserialize, Debug, Clone, PartialEq)]
+#[derive(Serialize, Deserialize, Debug)]
 pub enum EventB {
     Ping,
     Fetch(String),
@@ -287,7 +290,7 @@ pub mod app_b {
                 EventB::Store { key, value } => caps.key_value.set(key, value, EventB::GotKv),
                 EventB::Load(key) => caps.key_value.get(key, EventB::GotKv),
                 EventB::After(ms) => {
-                    caps.time.notify_after(std::time::Duration::from_millis(ms), EventB::GotTime);
+                    caps.time.notify_after(std::time::Duration::from_millis(ms.min(1_000_000)), EventB::GotTime);
                 }
                 EventB::Now => caps.time.now(EventB::GotTime),
                 EventB::Os => caps.platform.get(EventB::GotPlatform),
@@ -319,6 +322,1372 @@ pub mod app_b {
                 confirmed: model.confirmed,
                 last_status: model.last_status,
             }
+        }
+    }
+}
+
+// ================================================================================================ registry
+
+/// `register_app` as a build.rs calls it, then what `TypeGen::ensure_registry` does (typegen.rs:558-577)
+fn trace_app<A>(nested_enums: impl FnOnce(&mut TypeGen)) -> Registry
+where
+    A: crux_core::App,
+    A::Effect: crux_core::typegen::Export,
+    A::Event: Deserialize<'static>,
+    A::ViewModel: Deserialize<'static> + 'static,
+{
+    let mut gen = TypeGen::new();
+    // enums nested in the app's types need their own `register_type` (typegen.rs:248-264), as in any build.rs
+    nested_enums(&mut gen);
+    gen.register_app::<A>().expect("register_app");
+    let state = std::mem::replace(
+        &mut gen.state,
+        State::Registering(Tracer::new(TracerConfig::default()), Samples::new()),
+    );
+    match state {
+        State::Registering(tracer, _) => tracer.registry().expect("registry"),
+        State::Generating(r) => r,
+    }
+}
+
+fn fmt_sexp(f: &Format) -> String {
+    match f {
+        Format::Variable(_) => "variable".into(),
+        Format::TypeName(n) => format!("(name {n})"),
+        Format::Unit => "unit".into(),
+        Format::Bool => "bool".into(),
+        Format::I8 => "i8".into(),
+        Format::I16 => "i16".into(),
+        Format::I32 => "i32".into(),
+        Format::I64 => "i64".into(),
+        Format::I128 => "i128".into(),
+        Format::U8 => "u8".into(),
+        Format::U16 => "u16".into(),
+        Format::U32 => "u32".into(),
+        Format::U64 => "u64".into(),
+        Format::U128 => "u128".into(),
+        Format::F32 => "f32".into(),
+        Format::F64 => "f64".into(),
+        Format::Char => "char".into(),
+        Format::Str => "str".into(),
+        Format::Bytes => "bytes".into(),
+        Format::Option(f) => format!("(option {})", fmt_sexp(f)),
+        Format::Seq(f) => format!("(seq {})", fmt_sexp(f)),
+        Format::Map { key, value } => format!("(map {} {})", fmt_sexp(key), fmt_sexp(value)),
+        Format::Tuple(fs) => format!("(tuple{})", fs.iter().map(|f| format!(" {}", fmt_sexp(f))).collect::<String>()),
+        Format::TupleArray { content, size } => format!("(array {} {size})", fmt_sexp(content)),
+    }
+}
+
+fn named_sexp(fs: &[Named<Format>]) -> String {
+    fs.iter().map(|f| format!(" ({} {})", f.name, fmt_sexp(&f.value))).collect()
+}
+
+fn variant_sexp(v: &VariantFormat) -> String {
+    match v {
+        VariantFormat::Variable(_) => "variable".into(),
+        VariantFormat::Unit => "unit".into(),
+        VariantFormat::NewType(f) => format!("(newtype {})", fmt_sexp(f)),
+        VariantFormat::Tuple(fs) => {
+            format!("(tuple{})", fs.iter().map(|f| format!(" {}", fmt_sexp(f))).collect::<String>())
+        }
+        VariantFormat::Struct(fs) => format!("(struct{})", named_sexp(fs)),
+    }
+}
+
+fn container_sexp(c: &ContainerFormat) -> String {
+    match c {
+        ContainerFormat::UnitStruct => "unitstruct".into(),
+        ContainerFormat::NewTypeStruct(f) => format!("(newtype {})", fmt_sexp(f)),
+        ContainerFormat::TupleStruct(fs) => {
+            format!("(tuplestruct{})", fs.iter().map(|f| format!(" {}", fmt_sexp(f))).collect::<String>())
+        }
+        ContainerFormat::Struct(fs) => format!("(struct{})", named_sexp(fs)),
+        ContainerFormat::Enum(vs) => format!(
+            "(enum{})",
+            vs.iter().map(|(i, v)| format!(" ({i} {} {})", v.name, variant_sexp(&v.value))).collect::<String>()
+        ),
+    }
+}
+
+fn registry_sexp<'a>(entries: impl Iterator<Item = (&'a String, &'a ContainerFormat)>) -> String {
+    format!("(reg{})", entries.map(|(n, c)| format!(" ({n} {})", container_sexp(c))).collect::<String>())
+}
+
+fn names_in_format(f: &Format, out: &mut Vec<String>) {
+    match f {
+        Format::TypeName(n) => out.push(n.clone()),
+        Format::Option(f) | Format::Seq(f) => names_in_format(f, out),
+        Format::Map { key, value } => {
+            names_in_format(key, out);
+            names_in_format(value, out);
+        }
+        Format::Tuple(fs) => fs.iter().for_each(|f| names_in_format(f, out)),
+        Format::TupleArray { content, .. } => names_in_format(content, out),
+        _ => {}
+    }
+}
+
+fn fields_of_variant(v: &VariantFormat) -> Vec<Format> {
+    match v {
+        VariantFormat::Variable(_) | VariantFormat::Unit => vec![],
+        VariantFormat::NewType(f) => vec![(**f).clone()],
+        VariantFormat::Tuple(fs) => fs.clone(),
+        VariantFormat::Struct(fs) => fs.iter().map(|f| f.value.clone()).collect(),
+    }
+}
+
+fn names_in_container(c: &ContainerFormat, out: &mut Vec<String>) {
+    match c {
+        ContainerFormat::UnitStruct => {}
+        ContainerFormat::NewTypeStruct(f) => names_in_format(f, out),
+        ContainerFormat::TupleStruct(fs) => fs.iter().for_each(|f| names_in_format(f, out)),
+        ContainerFormat::Struct(fs) => fs.iter().for_each(|f| names_in_format(&f.value, out)),
+        ContainerFormat::Enum(vs) => {
+            vs.values().for_each(|v| fields_of_variant(&v.value).iter().for_each(|f| names_in_format(f, out)))
+        }
+    }
+}
+
+/// the part of the registry a format can reach, as the registry S-expression of a case line
+fn sub_registry(reg: &Registry, f: &Format) -> String {
+    let mut todo = vec![];
+    names_in_format(f, &mut todo);
+    let mut seen = BTreeSet::new();
+    while let Some(n) = todo.pop() {
+        if seen.insert(n.clone()) {
+            if let Some(c) = reg.get(&n) {
+                names_in_container(c, &mut todo);
+            }
+        }
+    }
+    registry_sexp(reg.iter().filter(|(n, _)| seen.contains(*n)))
+}
+
+fn format_has_map(reg: &Registry, f: &Format) -> bool {
+    sub_registry(reg, f).contains("(map ") || fmt_sexp(f).contains("(map ")
+}
+
+// ================================================================================================ roots
+
+/// One Rust type that crosses the bridge: its traced format, the app whose registry describes it.
+#[derive(Clone)]
+struct Root {
+    key: &'static str,
+    app: usize,
+    format: Format,
+}
+
+struct World {
+    regs: Vec<Registry>,
+    roots: Vec<Root>,
+}
+
+fn name(n: &str) -> Format {
+    Format::TypeName(n.to_string())
+}
+
+/// `$key => $ty` for every root: the harness can only drive types it can name, and `world()` checks that every
+/// container of every traced registry is covered by one of them.
+macro_rules! with_root_type {
+    ($key:expr, $f:ident, $($arg:expr),*) => {
+        match $key {
+            "RenderOperation" => $f::<RenderOperation>($($arg),*),
+            "HttpError" => $f::<HttpError>($($arg),*),
+            "HttpRequest" => $f::<HttpRequest>($($arg),*),
+            "HttpResponse" => $f::<HttpResponse>($($arg),*),
+            "HttpHeader" => $f::<HttpHeader>($($arg),*),
+            "HttpResult" => $f::<HttpResult>($($arg),*),
+            "KeyValueOperation" => $f::<KeyValueOperation>($($arg),*),
+            "KeyValueResponse" => $f::<KeyValueResponse>($($arg),*),
+            "KeyValueError" => $f::<KeyValueError>($($arg),*),
+            "KeyValueResult" => $f::<KeyValueResult>($($arg),*),
+            "Value" => $f::<KvValue>($($arg),*),
+            "Instant" => $f::<TInstant>($($arg),*),
+            "Duration" => $f::<TDuration>($($arg),*),
+            "TimerId" => $f::<TimerId>($($arg),*),
+            "TimeRequest" => $f::<TimeRequest>($($arg),*),
+            "TimeResponse" => $f::<TimeResponse>($($arg),*),
+            "PlatformRequest" => $f::<PlatformRequest>($($arg),*),
+            "PlatformResponse" => $f::<PlatformResponse>($($arg),*),
+            "Effect" => $f::<app_a::EffectFfi>($($arg),*),
+            "Request" => $f::<Request<app_a::EffectFfi>>($($arg),*),
+            "Requests" => $f::<Vec<Request<app_a::EffectFfi>>>($($arg),*),
+            "Event" => $f::<Event>($($arg),*),
+            "ViewModel" => $f::<ViewModel>($($arg),*),
+            "Ints" => $f::<Ints>($($arg),*),
+            "Floats" => $f::<Floats>($($arg),*),
+            "Marker" => $f::<Marker>($($arg),*),
+            "Wrapper" => $f::<Wrapper>($($arg),*),
+            "TupStruct" => $f::<TupStruct>($($arg),*),
+            "Inner" => $f::<Inner>($($arg),*),
+            "Tree2" => $f::<Tree2>($($arg),*),
+            "EffectB" => $f::<app_b::EffectBFfi>($($arg),*),
+            "RequestB" => $f::<Request<app_b::EffectBFfi>>($($arg),*),
+            "RequestsB" => $f::<Vec<Request<app_b::EffectBFfi>>>($($arg),*),
+            "EventB" => $f::<EventB>($($arg),*),
+            "ViewModelB" => $f::<ViewModelB>($($arg),*),
+            other => panic!("no Rust type for root {other}"),
+        }
+    };
+}
+
+/// roots that are not a container under their own key
+fn special_roots() -> Vec<Root> {
+    vec![
+        Root { key: "Requests", app: 0, format: Format::Seq(Box::new(name("Request"))) },
+        Root { key: "RequestB", app: 1, format: name("Request") },
+        Root { key: "RequestsB", app: 1, format: Format::Seq(Box::new(name("Request"))) },
+    ]
+}
+
+fn world() -> World {
+    let regs = vec![
+        trace_app::<app_a::App>(|gen| {
+            gen.register_type::<Inner>().expect("Inner");
+            gen.register_type::<Tree2>().expect("Tree2");
+        }),
+        trace_app::<app_b::App>(|_| {}),
+    ];
+    let mut roots = special_roots();
+    for (app, reg) in regs.iter().enumerate() {
+        for n in reg.keys() {
+            // app B shares the protocol containers with app A; its own ones are EffectB, Request, EventB, ViewModelB
+            if app == 1 && regs[0].contains_key(n) && n != "Request" {
+                assert_eq!(regs[0][n], reg[n], "container {n} traced differently for the two apps");
+                continue;
+            }
+            if app == 1 && n == "Request" {
+                continue; // RequestB above
+            }
+            let key: &'static str = Box::leak(n.clone().into_boxed_str());
+            roots.push(Root { key, app, format: name(n) });
+        }
+    }
+    // every root must be drivable (panics with the missing name otherwise: a new registered type needs a line above)
+    fn probe<T>(_: ()) {}
+    for r in &roots {
+        with_root_type!(r.key, probe, ());
+    }
+    roots.sort_by_key(|r| (r.app, r.key));
+    World { regs, roots }
+}
+
+// ================================================================================================ run: the real code
+
+/// crux_core/src/bridge/mod.rs:119-123
+fn bridge_options() -> impl bincode::Options + Copy {
+    bincode::DefaultOptions::new().with_fixint_encoding().allow_trailing_bytes()
+}
+
+fn exact_options() -> impl bincode::Options + Copy {
+    bincode::DefaultOptions::new().with_fixint_encoding().reject_trailing_bytes()
+}
+
+fn run_val<T: Serialize + DeserializeOwned>(v: &Uv) -> String {
+    let t: T = match from_uv(v) {
+        Ok(t) => t,
+        Err(e) => return format!("unbuildable {}", e.0.replace(' ', "_")),
+    };
+    match to_uv(&t) {
+        Ok(back) if back == *v => {}
+        Ok(back) => return format!("bad-case value-print-unstable {back}"),
+        Err(_) => return "ser-error".into(),
+    }
+    let bytes = match bridge_options().serialize(&t) {
+        Ok(b) => b,
+        Err(_) => return "ser-error".into(),
+    };
+    match bridge_options().deserialize::<T>(&bytes).ok().and_then(|t2| to_uv(&t2).ok()) {
+        Some(u) => format!("wrote {} {u}", to_hex(&bytes)),
+        None => format!("wrote {} unreadable", to_hex(&bytes)),
+    }
+}
+
+fn run_bytes<T: Serialize + DeserializeOwned>(bytes: &[u8]) -> String {
+    match bridge_options().deserialize::<T>(bytes) {
+        Err(_) => "rejected".into(),
+        Ok(t) => {
+            let u = match to_uv(&t) {
+                Ok(u) => u,
+                Err(_) => return "accepted-unprintable".into(),
+            };
+            let re = match bridge_options().serialize(&t) {
+                Ok(b) => b,
+                Err(_) => return format!("accepted-unwritable {u}"),
+            };
+            let trail = exact_options().deserialize::<T>(bytes).is_err();
+            format!("accepted {u} {} {}", to_hex(&re), trail as u8)
+        }
+    }
+}
+
+fn run_case(line: &str) -> String {
+    let items = match parse_line(line) {
+        Some(i) if i.len() == 5 => i,
+        _ => return "bad-case syntax".into(),
+    };
+    let (kind, root) = match (&items[0], &items[1]) {
+        (Tree::Atom(k), Tree::Atom(r)) => (k.as_str(), r.as_str()),
+        _ => return "bad-case syntax".into(),
+    };
+    match kind {
+        "val" => match uv_of_tree(&items[3]) {
+            Some(v) => with_root_type!(root, run_val, &v),
+            None => "bad-case value".into(),
+        },
+        "strict" | "any" => match &items[3] {
+            Tree::Atom(h) => match from_hex(h) {
+                Some(b) => with_root_type!(root, run_bytes, &b),
+                None => "bad-case hex".into(),
+            },
+            _ => "bad-case hex".into(),
+        },
+        _ => "bad-case kind".into(),
+    }
+}
+
+// ================================================================================================ (a) Rust values
+
+struct G {
+    rng: Rng,
+    depth: u32,
+    rr: BTreeMap<String, u64>,
+}
+
+const STRINGS: &[&str] = &[
+    "",
+    "a",
+    "GET",
+    "https://example.com/a?b=c#d",
+    "hello world",
+    "\u{0}",
+    "\t\r\n\u{7f}",
+    "é",
+    "ß→∀",
+    "日本語",
+    "🦀",
+    "a\u{10ffff}b\u{e000}\u{d7ff}",
+    "\u{feff}bom",
+    "content-type",
+    "application/json; charset=utf-8",
+];
+
+impl G {
+    fn new(seed: u64) -> G {
+        G { rng: Rng::new(seed), depth: 0, rr: BTreeMap::new() }
+    }
+    /// variant choice: cycles through `0..n` per enum name, so every variant is produced
+    fn variant(&mut self, name: &str, n: u64) -> u64 {
+        let c = self.rr.entry(name.to_string()).or_insert(0);
+        *c += 1;
+        if self.rng.chance(3, 4) {
+            (*c - 1) % n
+        } else {
+            self.rng.below(n)
+        }
+    }
+    fn len(&mut self) -> usize {
+        let cap = if self.depth > 2 { 2 } else { 6 };
+        match self.rng.below(10) {
+            0..=2 => 0,
+            3..=4 => 1,
+            5..=6 => 2,
+            7..=8 => 3 + self.rng.below(cap) as usize,
+            _ => {
+                if self.depth == 0 {
+                    20 + self.rng.below(60) as usize
+                } else {
+                    cap as usize
+                }
+            }
+        }
+    }
+    fn string(&mut self) -> String {
+        match self.rng.below(12) {
+            0..=6 => (*self.rng.pick(STRINGS)).to_string(),
+            7..=8 => {
+                let n = self.rng.below(12) as usize;
+                (0..n).map(|_| self.ch()).collect()
+            }
+            9 => "x".repeat(300),
+            10 => "é🦀".repeat(40 + self.rng.below(200) as usize),
+            _ => format!("k{}", self.rng.below(1000)),
+        }
+    }
+    fn ch(&mut self) -> char {
+        const CS: &[u32] =
+            &[0, 0x41, 0x7f, 0x80, 0x7ff, 0x800, 0xd7ff, 0xe000, 0xfffd, 0xffff, 0x10000, 0x1f980, 0x10ffff];
+        if self.rng.chance(1, 2) {
+            char::from_u32(*self.rng.pick(CS)).unwrap()
+        } else {
+            loop {
+                if let Some(c) = char::from_u32(self.rng.below(0x110000) as u32) {
+                    return c;
+                }
+            }
+        }
+    }
+    fn bytes(&mut self) -> Vec<u8> {
+        match self.rng.below(8) {
+            0..=1 => vec![],
+            2 => vec![self.rng.next() as u8],
+            3 => (0..=255u8).collect(),
+            4 => vec![0xff; 9],
+            5 => {
+                let n = 1000 + self.rng.below(3000) as usize;
+                (0..n).map(|_| self.rng.next() as u8).collect()
+            }
+            _ => {
+                let n = self.rng.below(40) as usize;
+                (0..n).map(|_| self.rng.next() as u8).collect()
+            }
+        }
+    }
+    /// boundary-directed integer in `[lo, hi]`
+    fn int(&mut self, lo: i128, hi: i128) -> i128 {
+        match self.rng.below(10) {
+            0 => lo,
+            1 => hi,
+            2 => lo + 1,
+            3 => hi - 1,
+            4 => 0i128.clamp(lo, hi),
+            5 => 1i128.clamp(lo, hi),
+            6 => (-1i128).clamp(lo, hi),
+            7 => (*self.rng.pick(&[127i128, 128, 255, 256, 65535, 65536, 1 << 31, 1 << 32, 1 << 63])).clamp(lo, hi),
+            _ => {
+                self.rng.range(lo, hi)
+            }
+        }
+    }
+    fn u128(&mut self) -> u128 {
+        match self.rng.below(8) {
+            0 => 0,
+            1 => u128::MAX,
+            2 => u128::MAX - 1,
+            3 => 1u128 << 127,
+            4 => (1u128 << 64) - 1,
+            5 => 1u128 << 64,
+            _ => ((self.rng.next() as u128) << 64) | self.rng.next() as u128,
+        }
+    }
+    fn i128(&mut self) -> i128 {
+        match self.rng.below(8) {
+            0 => i128::MIN,
+            1 => i128::MAX,
+            2 => -1,
+            3 => 0,
+            4 => i128::MIN + 1,
+            5 => i64::MIN as i128 - 1,
+            _ => (((self.rng.next() as u128) << 64) | self.rng.next() as u128) as i128,
+        }
+    }
+    fn f32(&mut self) -> f32 {
+        const BITS: &[u32] = &[0, 0x8000_0000, 0x3f80_0000, 0x7f80_0000, 0xff80_0000, 0x7fc0_0000, 1, 0x7f7f_ffff];
+        f32::from_bits(if self.rng.chance(1, 2) { *self.rng.pick(BITS) } else { self.rng.next() as u32 })
+    }
+    fn f64(&mut self) -> f64 {
+        const BITS: &[u64] = &[
+            0,
+            0x8000_0000_0000_0000,
+            0x3ff0_0000_0000_0000,
+            0x7ff0_0000_0000_0000,
+            0xfff0_0000_0000_0000,
+            0x7ff8_0000_0000_0000,
+            1,
+            0x7fef_ffff_ffff_ffff,
+        ];
+        f64::from_bits(if self.rng.chance(1, 2) { *self.rng.pick(BITS) } else { self.rng.next() })
+    }
+    fn vec<T: Arb>(&mut self) -> Vec<T> {
+        let n = self.len();
+        self.depth += 1;
+        let v = (0..n).map(|_| T::arb(self)).collect();
+        self.depth -= 1;
+        v
+    }
+    fn opt<T: Arb>(&mut self) -> Option<T> {
+        if self.rng.chance(1, 3) {
+            None
+        } else {
+            Some(T::arb(self))
+        }
+    }
+}
+
+trait Arb: Sized {
+    fn arb(g: &mut G) -> Self;
+}
+
+macro_rules! arb_int {
+    ($($t:ty),*) => {$(
+        impl Arb for $t {
+            fn arb(g: &mut G) -> $t {
+                g.int(<$t>::MIN as i128, <$t>::MAX as i128) as $t
+            }
+        }
+    )*};
+}
+arb_int!(i8, i16, i32, i64, u8, u16, u32, u64, usize);
+
+impl Arb for i128 {
+    fn arb(g: &mut G) -> i128 {
+        g.i128()
+    }
+}
+impl Arb for u128 {
+    fn arb(g: &mut G) -> u128 {
+        g.u128()
+    }
+}
+impl Arb for bool {
+    fn arb(g: &mut G) -> bool {
+        g.rng.chance(1, 2)
+    }
+}
+impl Arb for char {
+    fn arb(g: &mut G) -> char {
+        g.ch()
+    }
+}
+impl Arb for String {
+    fn arb(g: &mut G) -> String {
+        g.string()
+    }
+}
+impl Arb for () {
+    fn arb(_: &mut G) {}
+}
+impl<T: Arb> Arb for Vec<T> {
+    fn arb(g: &mut G) -> Vec<T> {
+        g.vec()
+    }
+}
+impl<T: Arb> Arb for Option<T> {
+    fn arb(g: &mut G) -> Option<T> {
+        g.opt()
+    }
+}
+impl<T: Arb> Arb for Box<T> {
+    fn arb(g: &mut G) -> Box<T> {
+        Box::new(T::arb(g))
+    }
+}
+impl<A: Arb, B: Arb> Arb for (A, B) {
+    fn arb(g: &mut G) -> (A, B) {
+        (A::arb(g), B::arb(g))
+    }
+}
+
+// ---- protocol types
+
+impl Arb for RenderOperation {
+    fn arb(_: &mut G) -> Self {
+        RenderOperation
+    }
+}
+impl Arb for HttpHeader {
+    fn arb(g: &mut G) -> Self {
+        HttpHeader { name: g.string(), value: g.string() }
+    }
+}
+impl Arb for HttpRequest {
+    fn arb(g: &mut G) -> Self {
+        HttpRequest { method: g.string(), url: g.string(), headers: g.vec(), body: g.bytes() }
+    }
+}
+impl Arb for HttpResponse {
+    fn arb(g: &mut G) -> Self {
+        HttpResponse { status: u16::arb(g), headers: g.vec(), body: g.bytes() }
+    }
+}
+impl Arb for HttpError {
+    /// only the variants that can cross the bridge; `Http` and `Json` are `#[serde(skip)]` (serialising them is an
+    /// error, nothing deserialises to them)
+    fn arb(g: &mut G) -> Self {
+        match g.variant("HttpError", 3) {
+            0 => HttpError::Url(g.string()),
+            1 => HttpError::Io(g.string()),
+            _ => HttpError::Timeout,
+        }
+    }
+}
+impl Arb for HttpResult {
+    fn arb(g: &mut G) -> Self {
+        match g.variant("HttpResult", 2) {
+            0 => HttpResult::Ok(HttpResponse::arb(g)),
+            _ => HttpResult::Err(HttpError::arb(g)),
+        }
+    }
+}
+impl Arb for KvValue {
+    fn arb(g: &mut G) -> Self {
+        match g.variant("Value", 2) {
+            0 => KvValue::None,
+            _ => KvValue::Bytes(g.bytes()),
+        }
+    }
+}
+impl Arb for KeyValueOperation {
+    fn arb(g: &mut G) -> Self {
+        match g.variant("KeyValueOperation", 5) {
+            0 => KeyValueOperation::Get { key: g.string() },
+            1 => KeyValueOperation::Set { key: g.string(), value: g.bytes() },
+            2 => KeyValueOperation::Delete { key: g.string() },
+            3 => KeyValueOperation::Exists { key: g.string() },
+            _ => KeyValueOperation::ListKeys { prefix: g.string(), cursor: u64::arb(g) },
+        }
+    }
+}
+impl Arb for KeyValueResponse {
+    fn arb(g: &mut G) -> Self {
+        match g.variant("KeyValueResponse", 5) {
+            0 => KeyValueResponse::Get { value: KvValue::arb(g) },
+            1 => KeyValueResponse::Set { previous: KvValue::arb(g) },
+            2 => KeyValueResponse::Delete { previous: KvValue::arb(g) },
+            3 => KeyValueResponse::Exists { is_present: bool::arb(g) },
+            _ => KeyValueResponse::ListKeys { keys: g.vec(), next_cursor: u64::arb(g) },
+        }
+    }
+}
+impl Arb for KeyValueError {
+    fn arb(g: &mut G) -> Self {
+        match g.variant("KeyValueError", 4) {
+            0 => KeyValueError::Io { message: g.string() },
+            1 => KeyValueError::Timeout,
+            2 => KeyValueError::CursorNotFound,
+            _ => KeyValueError::Other { message: g.string() },
+        }
+    }
+}
+impl Arb for KeyValueResult {
+    fn arb(g: &mut G) -> Self {
+        match g.variant("KeyValueResult", 2) {
+            0 => KeyValueResult::Ok { response: KeyValueResponse::arb(g) },
+            _ => KeyValueResult::Err { error: KeyValueError::arb(g) },
+        }
+    }
+}
+impl Arb for TInstant {
+    /// any pair is a value of the type as far as serde is concerned (`Instant::new` would panic on
+    /// nanos >= 10^9, deserialisation does not check), so the value is built the way a shell builds it
+    fn arb(g: &mut G) -> Self {
+        let (s, n) = (u64::arb(g), u32::arb(g));
+        from_uv(&Uv::Tuple(vec![
+            Uv::Num(Num::unsigned(NumTy::U64, s as u128)),
+            Uv::Num(Num::unsigned(NumTy::U32, n as u128)),
+        ]))
+        .expect("Instant from its two fields")
+    }
+}
+impl Arb for TDuration {
+    fn arb(g: &mut G) -> Self {
+        TDuration::new(u64::arb(g))
+    }
+}
+impl Arb for TimerId {
+    fn arb(g: &mut G) -> Self {
+        TimerId(usize::arb(g))
+    }
+}
+impl Arb for TimeRequest {
+    fn arb(g: &mut G) -> Self {
+        match g.variant("TimeRequest", 4) {
+            0 => TimeRequest::Now,
+            1 => TimeRequest::NotifyAt { id: TimerId::arb(g), instant: TInstant::arb(g) },
+            2 => TimeRequest::NotifyAfter { id: TimerId::arb(g), duration: TDuration::arb(g) },
+            _ => TimeRequest::Clear { id: TimerId::arb(g) },
+        }
+    }
+}
+impl Arb for TimeResponse {
+    fn arb(g: &mut G) -> Self {
+        match g.variant("TimeResponse", 4) {
+            0 => TimeResponse::Now { instant: TInstant::arb(g) },
+            1 => TimeResponse::InstantArrived { id: TimerId::arb(g) },
+            2 => TimeResponse::DurationElapsed { id: TimerId::arb(g) },
+            _ => TimeResponse::Cleared { id: TimerId::arb(g) },
+        }
+    }
+}
+impl Arb for PlatformRequest {
+    fn arb(_: &mut G) -> Self {
+        PlatformRequest
+    }
+}
+impl Arb for PlatformResponse {
+    fn arb(g: &mut G) -> Self {
+        PlatformResponse(g.string())
+    }
+}
+impl Arb for app_a::EffectFfi {
+    fn arb(g: &mut G) -> Self {
+        match g.variant("Effect", 5) {
+            0 => app_a::EffectFfi::Http(HttpRequest::arb(g)),
+            1 => app_a::EffectFfi::KeyValue(KeyValueOperation::arb(g)),
+            2 => app_a::EffectFfi::Platform(PlatformRequest),
+            3 => app_a::EffectFfi::Render(RenderOperation),
+            _ => app_a::EffectFfi::Time(TimeRequest::arb(g)),
+        }
+    }
+}
+impl Arb for app_b::EffectBFfi {
+    fn arb(g: &mut G) -> Self {
+        match g.variant("EffectB", 5) {
+            0 => app_b::EffectBFfi::Http(HttpRequest::arb(g)),
+            1 => app_b::EffectBFfi::KeyValue(KeyValueOperation::arb(g)),
+            2 => app_b::EffectBFfi::Platform(PlatformRequest),
+            3 => app_b::EffectBFfi::Render(RenderOperation),
+            _ => app_b::EffectBFfi::Time(TimeRequest::arb(g)),
+        }
+    }
+}
+impl<E: Arb + Serialize> Arb for Request<E> {
+    fn arb(g: &mut G) -> Self {
+        // `EffectId`'s constructor is private; it is `#[serde(transparent)]` over u32
+        let id = from_uv(&Uv::Num(Num::unsigned(NumTy::U32, u32::arb(g) as u128))).expect("EffectId");
+        Request { id, effect: E::arb(g) }
+    }
+}
+
+// ---- test types
+
+impl Arb for Ints {
+    fn arb(g: &mut G) -> Self {
+        Ints {
+            a: Arb::arb(g),
+            b: Arb::arb(g),
+            c: Arb::arb(g),
+            d: Arb::arb(g),
+            e: Arb::arb(g),
+            f: Arb::arb(g),
+            g: Arb::arb(g),
+            h: Arb::arb(g),
+            i: Arb::arb(g),
+            j: Arb::arb(g),
+            k: Arb::arb(g),
+        }
+    }
+}
+impl Arb for Floats {
+    fn arb(g: &mut G) -> Self {
+        Floats { x: g.f32(), y: g.f64() }
+    }
+}
+impl Arb for Marker {
+    fn arb(_: &mut G) -> Self {
+        Marker
+    }
+}
+impl Arb for Wrapper {
+    fn arb(g: &mut G) -> Self {
+        Wrapper(g.vec())
+    }
+}
+impl Arb for TupStruct {
+    fn arb(g: &mut G) -> Self {
+        TupStruct(Arb::arb(g), Arb::arb(g), Arb::arb(g))
+    }
+}
+impl Arb for Inner {
+    fn arb(g: &mut G) -> Self {
+        let n = if g.depth > 3 { 2 } else { 4 };
+        g.depth += 1;
+        let v = match g.variant("Inner", n) {
+            0 => Inner::A,
+            1 => Inner::B(Arb::arb(g)),
+            2 => Inner::C(g.string(), Arb::arb(g)),
+            _ => Inner::D { x: Arb::arb(g), y: g.vec() },
+        };
+        g.depth -= 1;
+        v
+    }
+}
+impl Arb for Tree2 {
+    fn arb(g: &mut G) -> Self {
+        let n = if g.depth > 3 { 1 } else { 2 };
+        g.depth += 1;
+        let v = match g.variant("Tree2", n) {
+            0 => Tree2::Leaf(Arb::arb(g)),
+            _ => Tree2::Node(g.vec()),
+        };
+        g.depth -= 1;
+        v
+    }
+}
+fn arb_map(g: &mut G) -> BTreeMap<String, u32> {
+    let n = g.len();
+    (0..n).map(|_| (g.string(), u32::arb(g))).collect()
+}
+impl Arb for Event {
+    fn arb(g: &mut G) -> Self {
+        g.depth += 1;
+        let v = match g.variant("Event", 23) {
+            0 => Event::Nothing,
+            1 => Event::Text(g.string()),
+            2 => Event::Pair(Arb::arb(g), Arb::arb(g)),
+            3 => Event::Rec { a: Arb::arb(g), b: g.vec(), c: Arb::arb(g) },
+            4 => Event::Blob(g.bytes()),
+            5 => Event::Ints(Arb::arb(g)),
+            6 => Event::Floats(Arb::arb(g)),
+            7 => Event::Map(arb_map(g)),
+            8 => Event::Arr([Arb::arb(g), Arb::arb(g), Arb::arb(g)]),
+            9 => Event::Tree(Arb::arb(g)),
+            10 => Event::Unit(()),
+            11 => Event::Wrap(Arb::arb(g)),
+            12 => Event::Tup(Arb::arb(g)),
+            13 => Event::Mark(Marker),
+            14 => Event::Http(Arb::arb(g)),
+            15 => Event::Kv(Arb::arb(g)),
+            16 => Event::Time(Arb::arb(g)),
+            17 => Event::Platform,
+            18 => Event::Render,
+            19 => Event::GotHttp(Arb::arb(g)),
+            20 => Event::GotKv(Arb::arb(g)),
+            21 => Event::GotTime(Arb::arb(g)),
+            _ => Event::GotPlatform(Arb::arb(g)),
+        };
+        g.depth -= 1;
+        v
+    }
+}
+impl Arb for ViewModel {
+    fn arb(g: &mut G) -> Self {
+        ViewModel {
+            seen: Arb::arb(g),
+            recent: g.vec(),
+            last_text: Arb::arb(g),
+            tags: arb_map(g),
+            blob: g.bytes(),
+            balance: Arb::arb(g),
+            ratio: g.f64(),
+            flag: Arb::arb(g),
+            initial: Arb::arb(g),
+            unit: (),
+            mark: Marker,
+        }
+    }
+}
+impl Arb for EventB {
+    /// the variants a shell can send (the rest are `#[serde(skip)]`)
+    fn arb(g: &mut G) -> Self {
+        match g.variant("EventB", 7) {
+            0 => EventB::Ping,
+            1 => EventB::Fetch(if g.rng.chance(1, 2) { "https://example.com/x".into() } else { g.string() }),
+            2 => EventB::Store { key: g.string(), value: g.bytes() },
+            3 => EventB::Load(g.string()),
+            4 => EventB::After(g.rng.below(100_000)),
+            5 => EventB::Now,
+            _ => EventB::Os,
+        }
+    }
+}
+impl Arb for ViewModelB {
+    fn arb(g: &mut G) -> Self {
+        ViewModelB { text: g.string(), count: Arb::arb(g), confirmed: Arb::arb(g), last_status: Arb::arb(g) }
+    }
+}
+
+/// `None`: `Serialize` refuses the value (a `#[serde(skip)]` variant) — it cannot cross the bridge at all
+fn gen_val<T: Arb + Serialize>(g: &mut G) -> Option<Uv> {
+    g.depth = 0;
+    to_uv(&T::arb(g)).ok()
+}
+
+// ================================================================================================ (b) schema walker
+
+/// Builds a value and its encoding from the registry alone (never looks at a Rust type): this is what a shell
+/// using the generated types can put on the wire.
+struct Walker<'a> {
+    reg: &'a Registry,
+    g: &'a mut G,
+    budget: i64,
+}
+
+fn num_bounds(t: NumTy) -> (i128, i128) {
+    match t {
+        NumTy::I8 => (i8::MIN as i128, i8::MAX as i128),
+        NumTy::I16 => (i16::MIN as i128, i16::MAX as i128),
+        NumTy::I32 => (i32::MIN as i128, i32::MAX as i128),
+        NumTy::I64 => (i64::MIN as i128, i64::MAX as i128),
+        NumTy::U8 => (0, u8::MAX as i128),
+        NumTy::U16 => (0, u16::MAX as i128),
+        NumTy::U32 | NumTy::F32 => (0, u32::MAX as i128),
+        NumTy::U64 | NumTy::F64 => (0, u64::MAX as i128),
+        NumTy::I128 | NumTy::U128 => unreachable!(),
+    }
+}
+
+fn num_ty(f: &Format) -> Option<NumTy> {
+    Some(match f {
+        Format::I8 => NumTy::I8,
+        Format::I16 => NumTy::I16,
+        Format::I32 => NumTy::I32,
+        Format::I64 => NumTy::I64,
+        Format::I128 => NumTy::I128,
+        Format::U8 => NumTy::U8,
+        Format::U16 => NumTy::U16,
+        Format::U32 => NumTy::U32,
+        Format::U64 => NumTy::U64,
+        Format::U128 => NumTy::U128,
+        Format::F32 => NumTy::F32,
+        Format::F64 => NumTy::F64,
+        _ => return None,
+    })
+}
+
+impl<'a> Walker<'a> {
+    fn len(&mut self) -> usize {
+        if self.budget <= 0 {
+            return 0;
+        }
+        let n = self.g.len();
+        self.budget -= n as i64;
+        n
+    }
+
+    fn fields(&mut self, fs: &[Format], out: &mut Vec<u8>) -> Vec<Uv> {
+        fs.iter().map(|f| self.value(f, out)).collect()
+    }
+
+    fn value(&mut self, f: &Format, out: &mut Vec<u8>) -> Uv {
+        if let Some(t) = num_ty(f) {
+            let n = match t {
+                NumTy::I128 => Num::signed(t, self.g.i128()),
+                NumTy::U128 => Num::unsigned(t, self.g.u128()),
+                NumTy::F32 => Num::unsigned(t, self.g.f32().to_bits() as u128),
+                NumTy::F64 => Num::unsigned(t, self.g.f64().to_bits() as u128),
+                _ => {
+                    let (lo, hi) = num_bounds(t);
+                    Num::signed(t, self.g.int(lo, hi))
+                }
+            };
+            out.extend(n.le_bytes());
+            return Uv::Num(n);
+        }
+        match f {
+            Format::Variable(_) => panic!("variable in a finished registry"),
+            Format::TypeName(n) => {
+                let c = self.reg.get(n).unwrap_or_else(|| panic!("format names unknown container {n}")).clone();
+                self.g.depth += 1;
+                let v = match &c {
+                    ContainerFormat::UnitStruct => Uv::Tuple(vec![]),
+                    ContainerFormat::NewTypeStruct(f) => Uv::Tuple(vec![self.value(f, out)]),
+                    ContainerFormat::TupleStruct(fs) => Uv::Tuple(self.fields(fs, out)),
+                    ContainerFormat::Struct(fs) => {
+                        let fs: Vec<Format> = fs.iter().map(|f| f.value.clone()).collect();
+                        Uv::Tuple(self.fields(&fs, out))
+                    }
+                    ContainerFormat::Enum(vs) => {
+                        // deep inside a value prefer the first variants (recursive enums terminate there)
+                        let cnt = if self.g.depth > 5 || self.budget <= 0 { 1 } else { vs.len() as u64 };
+                        let k = self.g.variant(&format!("walk:{n}/{cnt}"), cnt) as usize;
+                        let (idx, v) = vs.iter().nth(k).unwrap();
+                        out.extend((*idx).to_le_bytes());
+                        let fs = fields_of_variant(&v.value);
+                        Uv::Variant(v.name.clone(), self.fields(&fs, out))
+                    }
+                };
+                self.g.depth -= 1;
+                v
+            }
+            Format::Unit => Uv::Tuple(vec![]),
+            Format::Bool => {
+                let b = self.g.rng.chance(1, 2);
+                out.push(b as u8);
+                Uv::Bool(b)
+            }
+            Format::Char => {
+                let c = self.g.ch();
+                let mut buf = [0u8; 4];
+                out.extend(c.encode_utf8(&mut buf).as_bytes());
+                Uv::Char(c as u32)
+            }
+            Format::Str => {
+                let s = self.g.string().into_bytes();
+                out.extend((s.len() as u64).to_le_bytes());
+                out.extend(&s);
+                Uv::Str(s)
+            }
+            Format::Bytes => {
+                let b = self.g.bytes();
+                out.extend((b.len() as u64).to_le_bytes());
+                out.extend(&b);
+                Uv::Bytes(b)
+            }
+            Format::Option(f) => {
+                if self.g.rng.chance(1, 3) {
+                    out.push(0);
+                    Uv::None
+                } else {
+                    out.push(1);
+                    Uv::Some(Box::new(self.value(f, out)))
+                }
+            }
+            Format::Seq(f) => {
+                let n = self.len();
+                out.extend((n as u64).to_le_bytes());
+                self.g.depth += 1;
+                let v = (0..n).map(|_| self.value(f, out)).collect();
+                self.g.depth -= 1;
+                Uv::Seq(v)
+            }
+            Format::Map { key, value } => {
+                // a Rust map re-serialises in its own key order without duplicates, so only entries in that order
+                // are a value "Rust can also write": strings by bytes, unsigned integers by value, else ≤ 1 entry
+                let sortable = matches!(**key, Format::Str | Format::U8 | Format::U16 | Format::U32 | Format::U64);
+                let n = if sortable { self.len() } else { self.len().min(1) };
+                let mut entries: Vec<(Uv, Vec<u8>, Uv, Vec<u8>)> = (0..n)
+                    .map(|_| {
+                        let (mut kb, mut vb) = (vec![], vec![]);
+                        let k = self.value(key, &mut kb);
+                        let v = self.value(value, &mut vb);
+                        (k, kb, v, vb)
+                    })
+                    .collect();
+                let ord = |u: &Uv| match u {
+                    Uv::Str(s) => (0u128, s.clone()),
+                    Uv::Num(n) => (n.mag, vec![]),
+                    _ => (0, vec![]),
+                };
+                entries.sort_by_key(|e| ord(&e.0));
+                entries.dedup_by_key(|e| ord(&e.0));
+                out.extend((entries.len() as u64).to_le_bytes());
+                Uv::Seq(
+                    entries
+                        .into_iter()
+                        .map(|(k, kb, v, vb)| {
+                            out.extend(kb);
+                            out.extend(vb);
+                            Uv::Tuple(vec![k, v])
+                        })
+                        .collect(),
+                )
+            }
+            Format::Tuple(fs) => Uv::Tuple(self.fields(fs, out)),
+            Format::TupleArray { content, size } => Uv::Tuple((0..*size).map(|_| self.value(content, out)).collect()),
+            _ => unreachable!(),
+        }
+    }
+}
+
+fn walk(reg: &Registry, f: &Format, g: &mut G) -> (Uv, Vec<u8>) {
+    g.depth = 0;
+    let mut out = vec![];
+    let v = Walker { reg, g, budget: 80 }.value(f, &mut out);
+    (v, out)
+}
+
+fn mutate(g: &mut G, bytes: &[u8]) -> Vec<u8> {
+    let mut b = bytes.to_vec();
+    match g.rng.below(8) {
+        0 | 1 => {
+            // trailing bytes: still accepted (allow_trailing_bytes)
+            let n = 1 + g.rng.below(9) as usize;
+            b.extend((0..n).map(|_| g.rng.next() as u8));
+        }
+        2 if !b.is_empty() => {
+            let n = g.rng.below(b.len() as u64) as usize;
+            b.truncate(n);
+        }
+        3 if !b.is_empty() => {
+            let i = g.rng.below(b.len() as u64) as usize;
+            b[i] ^= 1 << g.rng.below(8);
+        }
+        4 if !b.is_empty() => {
+            let i = g.rng.below(b.len() as u64) as usize;
+            b[i] = *g.rng.pick(&[0u8, 1, 2, 0x7f, 0x80, 0xc0, 0xff]);
+        }
+        5 if !b.is_empty() => {
+            // concentrate on the head: variant numbers, tags and lengths live there
+            let i = g.rng.below(b.len().min(16) as u64) as usize;
+            b[i] = g.rng.next() as u8;
+        }
+        6 if b.len() >= 8 => {
+            // an 8-byte window becomes a boundary length
+            let i = g.rng.below((b.len() - 7) as u64) as usize;
+            let v: u64 = *g.rng.pick(&[0, 1, 2, 255, 256, 1 << 31, 1 << 32, 1 << 63, u64::MAX, b.len() as u64]);
+            b[i..i + 8].copy_from_slice(&v.to_le_bytes());
+        }
+        _ => {
+            let n = g.rng.below(24) as usize;
+            b = (0..n).map(|_| g.rng.next() as u8).collect();
+        }
+    }
+    b
+}
+
+// ================================================================================================ (c) bridge histories
+
+fn case_line(w: &World, root: &Root, kind: &str, payload: &str) -> String {
+    format!("{kind} {} {} {payload} {}", root.key, fmt_sexp(&root.format), sub_registry(&w.regs[root.app], &root.format))
+}
+
+fn root<'w>(w: &'w World, key: &str) -> &'w Root {
+    w.roots.iter().find(|r| r.key == key).unwrap_or_else(|| panic!("no root {key}"))
+}
+
+/// Drives a real `Bridge` with generated events and responses; every byte string it returns becomes a `strict` case.
+fn history_a(w: &World, g: &mut G, steps: usize, out: &mut Vec<String>) {
+    let bridge: Bridge<app_a::App> = Bridge::new(Core::new());
+    let (reqs, view) = (root(w, "Requests"), root(w, "ViewModel"));
+    let mut pending: Vec<Request<app_a::EffectFfi>> = vec![];
+    for _ in 0..steps {
+        let bytes = if !pending.is_empty() && g.rng.chance(1, 2) {
+            let r = pending.remove(g.rng.below(pending.len() as u64) as usize);
+            // the shell answers with what the generated types write: an encoding built from the schema
+            let out_ty = match r.effect {
+                app_a::EffectFfi::Http(_) => "HttpResult",
+                app_a::EffectFfi::KeyValue(_) => "KeyValueResult",
+                app_a::EffectFfi::Platform(_) => "PlatformResponse",
+                app_a::EffectFfi::Time(_) => "TimeResponse",
+                app_a::EffectFfi::Render(_) => continue,
+            };
+            let resp = walk(&w.regs[reqs.app], &name(out_ty), g).1;
+            bridge.handle_response(r.id.0, &resp).expect("handle_response")
+        } else {
+            let ev = walk(&w.regs[reqs.app], &name("Event"), g).1;
+            bridge.process_event(&ev).expect("process_event")
+        };
+        out.push(case_line(w, reqs, "strict", &to_hex(&bytes)));
+        if let Ok(rs) = bridge_options().deserialize::<Vec<Request<app_a::EffectFfi>>>(&bytes) {
+            pending.extend(rs.into_iter().filter(|r| !matches!(r.effect, app_a::EffectFfi::Render(_))));
+        }
+        out.push(case_line(w, view, "strict", &to_hex(&bridge.view().expect("view"))));
+    }
+}
+
+fn history_b(w: &World, g: &mut G, steps: usize, out: &mut Vec<String>) {
+    let bridge: Bridge<app_b::App> = Bridge::new(Core::new());
+    let (reqs, view) = (root(w, "RequestsB"), root(w, "ViewModelB"));
+    let mut pending: Vec<Request<app_b::EffectBFfi>> = vec![];
+    for _ in 0..steps {
+        let bytes = if !pending.is_empty() && g.rng.chance(1, 2) {
+            let r = pending.remove(g.rng.below(pending.len() as u64) as usize);
+            // the shell answers with what the generated types write: an encoding built from the schema
+            let out_ty = match r.effect {
+                app_b::EffectBFfi::Http(_) => "HttpResult",
+                app_b::EffectBFfi::KeyValue(_) => "KeyValueResult",
+                app_b::EffectBFfi::Platform(_) => "PlatformResponse",
+                app_b::EffectBFfi::Time(_) => "TimeResponse",
+                app_b::EffectBFfi::Render(_) => continue,
+            };
+            let resp = walk(&w.regs[reqs.app], &name(out_ty), g).1;
+            // a response of the wrong kind for a kv call makes the capability's task panic (C17); keep to `Ok` shapes
+            let hook = std::panic::take_hook();
+            std::panic::set_hook(Box::new(|_| {}));
+            let res = catch_unwind(AssertUnwindSafe(|| bridge.handle_response(r.id.0, &resp)));
+            std::panic::set_hook(hook);
+            match res {
+                Ok(Ok(b)) => b,
+                _ => return,
+            }
+        } else {
+            let ev = walk(&w.regs[reqs.app], &name("EventB"), g).1;
+            bridge.process_event(&ev).expect("process_event")
+        };
+        out.push(case_line(w, reqs, "strict", &to_hex(&bytes)));
+        if let Ok(rs) = bridge_options().deserialize::<Vec<Request<app_b::EffectBFfi>>>(&bytes) {
+            pending.extend(rs.into_iter().filter(|r| !matches!(r.effect, app_b::EffectBFfi::Render(_))));
+        }
+        out.push(case_line(w, view, "strict", &to_hex(&bridge.view().expect("view"))));
+    }
+}
+
+// ================================================================================================ main
+
+/// runs one section of the generator; a panic inside it (the real code refusing what the schema says, a format naming
+/// a container the registry lacks, …) becomes a `trace-failed` line and the other sections still run
+fn section(out: &mut Vec<String>, f: impl FnOnce(&mut Vec<String>)) {
+    let msg = std::sync::Arc::new(std::sync::Mutex::new(String::new()));
+    let m2 = msg.clone();
+    let hook = std::panic::take_hook();
+    std::panic::set_hook(Box::new(move |info| {
+        *m2.lock().unwrap() = info.to_string();
+    }));
+    let mut lines = vec![];
+    let res = catch_unwind(AssertUnwindSafe(|| f(&mut lines)));
+    std::panic::set_hook(hook);
+    out.append(&mut lines);
+    if res.is_err() {
+        let m: String = msg.lock().unwrap().chars().map(|c| if c.is_ascii_alphanumeric() { c } else { '_' }).collect();
+        out.push(format!("trace-failed {}", &m[..m.len().min(300)]));
+    }
+}
+
+fn gen_cases(w: &World, seed: u64, n: usize) -> Vec<String> {
+    let mut g = G::new(seed);
+    let mut out = vec![];
+    // n = total budget; per root: 40 % Rust values, 45 % from the schema (values / encodings / mutated); 15 % bridge bytes
+    let per_root = (n / w.roots.len()).max(4);
+    for r in &w.roots {
+        let reg = &w.regs[r.app];
+        let g = &mut g;
+        section(&mut out, |out| {
+            for _ in 0..per_root * 40 / 100 {
+                if let Some(v) = with_root_type!(r.key, gen_val, g) {
+                    out.push(case_line(w, r, "val", &v.to_string()));
+                }
+            }
+            let has_map = format_has_map(reg, &r.format);
+            for i in 0..per_root * 45 / 100 {
+                let (v, bytes) = walk(reg, &r.format, g);
+                if i % 3 == 2 && !has_map {
+                    out.push(case_line(w, r, "any", &to_hex(&mutate(g, &bytes))));
+                } else if i % 3 == 1 {
+                    // the same value as a `val` case: Rust must write exactly the walker's bytes
+                    out.push(case_line(w, r, "val", &v.to_string()));
+                } else {
+                    out.push(case_line(w, r, "strict", &to_hex(&bytes)));
+                }
+            }
+        });
+    }
+    let steps = (n * 15 / 100 / 4).max(4);
+    let mut left = steps;
+    while left > 0 {
+        let k = left.min(12);
+        let g = &mut g;
+        section(&mut out, |out| history_a(w, g, k, out));
+        section(&mut out, |out| history_b(w, g, k, out));
+        left -= k;
+    }
+    out
+}
+
+/// hand-picked: one value per variant of `HttpError` (the `#[serde(skip)]` numbering defect) alone and nested, the
+/// empty / extreme values of a few roots
+fn gen_fixed(w: &World) -> Vec<String> {
+    let mut out = vec![];
+    let s = |x: &str| x.to_string();
+    let vals: Vec<(&str, Uv)> = vec![
+        ("HttpError", to_uv(&HttpError::Url(s("x"))).unwrap()),
+        ("HttpError", to_uv(&HttpError::Io(s(""))).unwrap()),
+        ("HttpError", to_uv(&HttpError::Timeout).unwrap()),
+        ("HttpResult", to_uv(&HttpResult::Err(HttpError::Url(s("relative URL without a base")))).unwrap()),
+        ("HttpResult", to_uv(&HttpResult::Ok(HttpResponse { status: 200, headers: vec![], body: vec![] })).unwrap()),
+        ("Event", to_uv(&Event::GotHttp(HttpResult::Err(HttpError::Timeout))).unwrap()),
+        ("HttpRequest", to_uv(&HttpRequest::default()).unwrap()),
+        ("Value", to_uv(&KvValue::Bytes(vec![])).unwrap()),
+        ("Value", to_uv(&KvValue::None).unwrap()),
+        ("TimerId", to_uv(&TimerId(usize::MAX)).unwrap()),
+        (
+            "Ints",
+            to_uv(&Ints {
+                a: i8::MIN,
+                b: i16::MIN,
+                c: i32::MIN,
+                d: i64::MIN,
+                e: i128::MIN,
+                f: u8::MAX,
+                g: u16::MAX,
+                h: u32::MAX,
+                i: u64::MAX,
+                j: u128::MAX,
+                k: usize::MAX,
+            })
+            .unwrap(),
+        ),
+        ("Event", to_uv(&Event::Rec { a: Some(None), b: vec![], c: (true, '\u{10ffff}') }).unwrap()),
+        ("Event", to_uv(&Event::Rec { a: Some(Some(u32::MAX)), b: vec![Inner::A], c: (false, '\0') }).unwrap()),
+        ("Event", to_uv(&Event::Map(BTreeMap::new())).unwrap()),
+    ];
+    for (k, v) in vals {
+        out.push(case_line(w, root(w, k), "val", &v.to_string()));
+    }
+    // what a generated shell writes for each HttpError variant (variant number from the schema)
+    let he = root(w, "HttpError");
+    out.push(case_line(w, he, "strict", "00000000010000000000000078"));
+    out.push(case_line(w, he, "strict", "010000000000000000000000"));
+    out.push(case_line(w, he, "strict", "02000000"));
+    // an empty request list and an empty input
+    out.push(case_line(w, root(w, "Requests"), "strict", "0000000000000000"));
+    out.push(case_line(w, root(w, "Requests"), "any", "-"));
+    out
+}
+
+/// Tracing or case construction can fail outright (register_app returns an error, the registry is incomplete, a
+/// traced container has no Rust type here, a format names a container the registry lacks). That is a C10 failure
+/// of the tree, not of the harness run: it becomes a case line no model accepts, so the check reports it.
+fn guarded(f: impl FnOnce() -> Vec<String>) -> Vec<String> {
+    let msg = std::sync::Arc::new(std::sync::Mutex::new(String::new()));
+    let m2 = msg.clone();
+    let hook = std::panic::take_hook();
+    std::panic::set_hook(Box::new(move |info| {
+        *m2.lock().unwrap() = info.to_string();
+    }));
+    let res = catch_unwind(AssertUnwindSafe(f));
+    std::panic::set_hook(hook);
+    match res {
+        Ok(lines) => lines,
+        Err(_) => {
+            let m: String = msg.lock().unwrap().chars().map(|c| if c.is_ascii_alphanumeric() { c } else { '_' }).collect();
+            vec![format!("trace-failed {m}")]
+        }
+    }
+}
+
+fn main() {
+    let args: Vec<String> = std::env::args().collect();
+    let mode = args.get(1).map(String::as_str).unwrap_or("");
+    let stdout = std::io::stdout();
+    let mut o = std::io::BufWriter::new(stdout.lock());
+    match mode {
+        "registry" => {
+            for r in world().regs {
+                writeln!(o, "{}", registry_sexp(r.iter())).unwrap();
+            }
+        }
+        "gen-fixed" => {
+            for l in guarded(|| gen_fixed(&world())) {
+                writeln!(o, "{l}").unwrap();
+            }
+        }
+        "gen" => {
+            let seed: u64 = args.get(2).and_then(|s| s.parse().ok()).unwrap_or(1);
+            let n: usize = args.get(3).and_then(|s| s.parse().ok()).unwrap_or(1000);
+            for l in guarded(|| gen_cases(&world(), seed, n)) {
+                writeln!(o, "{l}").unwrap();
+            }
+        }
+        "run" => {
+            // the Rust types must still be the ones the registry in the case lines was traced from: re-trace now and
+            // refuse cases whose registry differs (a stale replay file), rather than compare against an old schema
+            std::panic::set_hook(Box::new(|_| {}));
+            let w = match catch_unwind(world) {
+                Ok(w) => w,
+                Err(_) => {
+                    for _ in std::io::stdin().lock().lines() {
+                        writeln!(o, "trace-failed").unwrap();
+                    }
+                    return;
+                }
+            };
+            for line in std::io::stdin().lock().lines() {
+                let line = line.unwrap();
+                if line.starts_with("trace-failed") {
+                    writeln!(o, "trace-failed").unwrap();
+                    continue;
+                }
+                let fresh = parse_line(&line).and_then(|items| match (items.get(1), items.get(4)) {
+                    (Some(Tree::Atom(k)), Some(reg)) => {
+                        w.roots.iter().find(|r| r.key == k).map(|r| sub_registry(&w.regs[r.app], &r.format) == reg.to_string())
+                    }
+                    _ => None,
+                });
+                let res = match fresh {
+                    Some(false) => "bad-case registry-is-not-the-one-traced-from-this-tree".to_string(),
+                    _ => match catch_unwind(AssertUnwindSafe(|| run_case(&line))) {
+                        Ok(s) => s,
+                        Err(_) => "panic run".to_string(),
+                    },
+                };
+                writeln!(o, "{res}").unwrap();
+            }
+        }
+        _ => {
+            eprintln!("usage: codec registry | gen-fixed | gen <seed> <n> | run");
+            std::process::exit(2);
         }
     }
 }
